@@ -381,7 +381,7 @@ func doneAt(tr []simrt.TraceEvent, jseq int) map[string]bool {
 
 func init() {
 	Register(&Check{ID: "C01", Level: "fault_enumeration",
-		Rule: "one case = one generated workflow (shell-command and Go-function tasks; output paths plain, in new sub-directories, parent-relative, absolute; extra files) under one tape-chosen schedule, optionally with one injected command failure (exit before / after partial / after complete write, signal at a micro-step, omitted output). For that schedule EVERY distinct crash state (the fs after each journalled fs mutation = every instant at which killing the process group leaves a different durable state) is enumerated and checked: a file at a declared final path implies an exit(0) of that task's command earlier in the journal and complete bytes; every other new regular file is an audit/log/extra file or lies below a _scipipe_tmp* directory. evaluations = incarnations; crash_states_enumerated counts the states checked. distinct = event-log hash; non-trivial = >=2 tasks started and >=1 non-default choice",
+		Rule: "one case = one generated workflow (shell-command and Go-function tasks; output paths plain, in new sub-directories, parent-relative, absolute; extra files) under one tape-chosen schedule, optionally with one or two injected command failures (exit before / after partial / after complete write, signal at a micro-step, omitted output) or with a process whose command is an && list failing at its middle step; other shapes: same base names in different directories, FileSplitter (every visible part must be complete). For that schedule EVERY distinct crash state (the fs after each journalled fs mutation = every instant at which killing the process group leaves a different durable state) is enumerated and checked: a file at a declared final path implies an exit(0) of that task's command earlier in the journal and complete bytes; every other new regular file is an audit/log/extra file or lies below a _scipipe_tmp* directory. evaluations = incarnations; crash_states_enumerated counts the states checked. distinct = event-log hash; non-trivial = >=2 tasks started and >=1 non-default choice",
 		Run: func(c *Case) Verdict {
 			var w *WF
 			switch c.Tape.Choose(simrt.StGen, 8, 0) {
